@@ -788,11 +788,11 @@ fn overtake_case() -> BoxedStrategy<Overtake> {
 
 pub fn run(ctx: &Ctx, rep: &Report) {
     // one case at a time: the probe handler is process-wide
-    run_prop_threads(ctx, rep, "overtake", ctx.tier.pick(150, 3_000), 1, &|| overtake_case(), &check_overtake);
-    run_prop(ctx, rep, "forward", ctx.tier.pick(600, 12_000), &|| forward_case(), &check_forward);
+    run_prop_threads(ctx, rep, "overtake", ctx.tier.pick(150, 6_000), 1, &|| overtake_case(), &check_overtake);
+    run_prop(ctx, rep, "forward", ctx.tier.pick(600, 40_000), &|| forward_case(), &check_forward);
     let ex = exhaustive_cases(ctx.tier.pick(5, 6));
     run_enum(ctx, rep, "permutations", &ex, true, &check);
-    run_prop(ctx, rep, "random", ctx.tier.pick(900, 30_000), &|| case(), &check);
+    run_prop(ctx, rep, "random", ctx.tier.pick(900, 120_000), &|| case(), &check);
 }
 
 pub fn replay(sub: &str, case: &serde_json::Value) -> Result<(), Fail> {
